@@ -765,7 +765,7 @@ ccoPrToken(CCode cco)
 		q = (tag == CCO_StringVal) ? '\"' : '\'';
 
 		ccoPutc(q), cc++;
-		for (c = *s++; c; c = *s++)
+		for (c = (unsigned char) *s++; c; c = (unsigned char) *s++)
 			switch (c) {
 			case '\n':
 				ccoPutc('\\'); ccoPutc('n');  cc += 2; break;
@@ -798,7 +798,7 @@ ccoPrToken(CCode cco)
 				if (isprint(c))
 					ccoPutc(c), cc++;
 				else
-					cc += ccoPrintf("\\%#o", c);
+					cc += ccoPrintf("\\%03o", c);
 				break;
 			}
 		ccoPutc(q), cc++;
